@@ -291,6 +291,13 @@ func runC18(c *engine.Ctx) {
 
 	// ---- (b) a key set x requested id, through the simulated disk
 	alpha := []string{"a", "b", "c"}
+	rot := map[string]string{"a": "b", "b": "c", "c": "a", "": ""}
+	wsIDs := p.Draw(6, "set:ws-ids") == 5
+	if wsIDs {
+		// a key id is an arbitrary string: white space in it is part of it
+		alpha = []string{"a ", " a", "aa"}
+		rot = map[string]string{"a ": " a", " a": "aa", "aa": "a ", "": ""}
+	}
 	nkeys := p.Draw(5, "set:nkeys")
 	type setKey struct {
 		id    string
@@ -346,6 +353,10 @@ func runC18(c *engine.Ctx) {
 		set = append(set, setKey{id: id, valid: valid, obj: o, desc: fmt.Sprintf("%s/%q id=%q%s", b.name, a, id, useDesc)})
 	}
 	req := append([]string{""}, alpha...)[p.Draw(4, "set:request")]
+	if wsIDs && p.Draw(4, "set:request-ws") == 3 {
+		// requested ids that are not in the file as such (they only resemble one after trimming, or are blank)
+		req = []string{" ", "a", "a \n", "aa "}[p.Draw(4, "set:request-wsv")]
+	}
 	var objs []map[string]any
 	var descs []string
 	for _, k := range set {
@@ -419,7 +430,20 @@ func runC18(c *engine.Ctx) {
 
 	var lk jwk.Key
 	var lerr error
-	c.Guard("C18.panic", "LoadKey after "+strings.Join(fired, "+"), func() { lk, lerr = jwkutil.LoadKey(path, req) })
+	// delivery: a regular file, or (fault-free runs, one in eight) the read end of a pipe handed over as a
+	// /dev/fd path - what a shell's process substitution gives a program: same bytes, no size to stat
+	loadPath := path
+	viaPipe := false
+	if len(fired) == 0 && !absent && p.Draw(8, "set:via-pipe") == 7 {
+		if pr, pw, perr := os.Pipe(); perr == nil {
+			viaPipe = true
+			loadPath = fmt.Sprintf("/dev/fd/%d", pr.Fd())
+			go func(b []byte) { pw.Write(b); pw.Close() }(append([]byte(nil), persisted...))
+			defer pr.Close()
+			c.Probe("key_set_delivered_through_a_pipe")
+		}
+	}
+	c.Guard("C18.panic", "LoadKey after "+strings.Join(fired, "+"), func() { lk, lerr = jwkutil.LoadKey(loadPath, req) })
 	c.Ev("loadkey", lerr != nil)
 	setDesc := fmt.Sprintf("set %v requested id %q", descs, req)
 	if len(fired) == 0 {
@@ -480,8 +504,7 @@ func runC18(c *engine.Ctx) {
 		}
 		// a second version of the file, same path and same length (ids rotated a->b->c->a), written right
 		// after the first load: LoadKey must answer from the file as it is now
-		if len(set) > 0 && !unparseable {
-			rot := map[string]string{"a": "b", "b": "c", "c": "a", "": ""}
+		if len(set) > 0 && !unparseable && !viaPipe {
 			var objs2 []map[string]any
 			set2 := make([]setKey, len(set))
 			for i, k := range set {
